@@ -21,6 +21,7 @@ type Case struct {
 	Elide   bool   `json:"elide"`
 	Sleep   bool   `json:"mode_a"`
 	Installs map[int][]int `json:"sleep_installs,omitempty"`
+	Reset   bool   `json:"globals_reset,omitempty"` // package-level state is put back into its initial state before the execution
 }
 
 // Opts tunes the strategy per tier.
@@ -32,6 +33,12 @@ type Opts struct {
 	CapB       int // execution cap per bound
 	NoElide    bool
 	SkipA      bool // do not attempt mode A (programs whose operations are nearly all mutually dependent)
+	// ColdStart adds a second exploration in which every execution starts from the initial package-level
+	// state of the library (as the first use in a fresh process: empty pools, caches and registries), up to
+	// the given preemption bounds. The main exploration runs on warm state, which is what a long-lived
+	// process sees; a defect that needs an empty pool or a first use shows only from a cold start.
+	ColdStart  []int
+	ColdCap    int
 }
 
 // Judges return "kind\x00detail" strings.
@@ -50,6 +57,10 @@ func Explore(r *engine.Rec, prog rt.Program, o Opts) {
 		if json.Unmarshal(r.ReplayCase, &sc) != nil || sc.Prog != o.Name {
 			return
 		}
+		if sc.Reset {
+			rt.ResetAllGlobals()
+			defer rt.ResetAllGlobals()
+		}
 		threads, judge := prog()
 		ex := rt.RunOnce(rt.Config{Elide: sc.Elide, Race: true, Trace: true, Sleep: sc.Sleep, Installs: sc.Installs}, sc.Choices, threads)
 		r.Evals++
@@ -64,10 +75,14 @@ func Explore(r *engine.Rec, prog rt.Program, o Opts) {
 	rt.RunOnce(rt.Config{}, nil, warm)
 	outcomes := map[string]bool{}
 	onExec := func(ex *rt.Exec) { outcomes[fmt.Sprint(ex.SortedStuck(), len(ex.Panics))] = true }
-	diverged := false
+	diverged, globalsReset := false, false
 	record := func(st rt.ExploreStats, elide, sleep bool) {
 		if st.Diverged {
 			diverged = true
+		}
+		if st.GlobalsReset {
+			globalsReset = true
+			diverged = st.Diverged // what counts is the exploration that was redone from a reset state
 		}
 		r.Evals += int64(st.Executions)
 		r.States += int64(st.Points)
@@ -80,7 +95,7 @@ func Explore(r *engine.Rec, prog rt.Program, o Opts) {
 		for _, f := range st.Violations {
 			for _, w := range f.What {
 				k, d := split(w)
-				sc := Case{Prog: o.Name, Desc: o.Desc, Choices: f.Choices, Elide: elide, Sleep: sleep}
+				sc := Case{Prog: o.Name, Desc: o.Desc, Choices: f.Choices, Elide: elide, Sleep: sleep, Reset: st.GlobalsReset}
 				r.Violation(o.SigPrefix+k, d, sc)
 			}
 		}
@@ -116,6 +131,31 @@ func Explore(r *engine.Rec, prog rt.Program, o Opts) {
 		if bound < 0 {
 			r.Incomplete(fmt.Sprintf("%s: neither all interleavings nor the smallest preemption bound completed within the caps", o.Name))
 		}
+	}
+	if len(o.ColdStart) > 0 && rt.CanResetGlobals() {
+		cold := -1
+		for _, b := range o.ColdStart {
+			st := rt.Explore(prog, rt.ExploreOpts{Bound: b, Race: true, Elide: elide, Deadline: r.Deadline, MaxExecs: o.ColdCap, OnExec: onExec, ResetGlobals: true})
+			st.GlobalsReset = true
+			gr, dv := globalsReset, diverged
+			record(st, elide && !st.ElisionOff, false)
+			globalsReset, diverged = gr, dv
+			if !st.Complete {
+				break
+			}
+			cold = b
+			if len(st.Violations) > 0 {
+				break
+			}
+		}
+		rt.ResetAllGlobals()
+		r.Note("cold_start_preemption_bound_completed", cold)
+		if cold >= 0 {
+			r.Add("programs_also_explored_from_a_cold_start", 1)
+		}
+	}
+	if globalsReset {
+		r.Note("globals_reset", "executions of this program were not reproducible (package-level state survives between executions): the exploration was redone with every package-level variable of the library put back to its initial value before each execution")
 	}
 	if diverged {
 		r.Note("not_reproducible", "a recorded schedule prefix could not be followed again: state outside the per-execution objects survives between executions; coverage of this program is incomplete")
